@@ -122,6 +122,34 @@ def check(ix, rep):
         rep.ok('R-UNITFLOW', vi.module.rel, vi.qual, 'Interval(begin,end,begin_unit,end_unit)', 'each bound keeps its own unit', vi.node.lineno)
     else:
         rep.fail('R-UNITFLOW', vi.module.rel, vi.qual, 'Interval(begin,end,begin_unit,end_unit)', 'visitInterval does not pair intervalTime(0)/(1) with begin/end and their units', vi.node.lineno)
+    # every other Interval built by the AST builder from the fields of a parsed interval carries BOTH unit strings of that interval
+    # (the transformers resolve a missing unit from the other bound, so dropping either one changes the duration)
+    for fn in stl.methods.values():
+        if fn is vi:
+            continue
+        for c in ast.walk(fn.node):
+            if isinstance(c, ast.Call) and isinstance(c.func, ast.Name) and c.func.id == 'Interval':
+                srcs = set()
+                for a in list(c.args) + [k.value for k in c.keywords]:
+                    for n in ast.walk(a):
+                        if isinstance(n, ast.Attribute) and n.attr in ('begin', 'end') and isinstance(n.value, ast.Name):
+                            srcs.add(n.value.id)
+                if not srcs:
+                    continue
+                rep.analysed(fn)
+                got = {'begin_unit': ast.unparse(c.args[2]) if len(c.args) > 2 else None, 'end_unit': ast.unparse(c.args[3]) if len(c.args) > 3 else None}
+                for k in c.keywords:
+                    if k.arg in got:
+                        got[k.arg] = ast.unparse(k.value)
+                src = sorted(srcs)[0]
+                want = {'begin_unit': '%s.begin_unit' % src, 'end_unit': '%s.end_unit' % src}
+                slot = 'derived-interval@%s' % fn.name
+                if got == want:
+                    rep.ok('R-UNITFLOW', fn.module.rel, fn.qual, slot, 'Interval derived from `%s` carries both of its units' % src, c.lineno)
+                else:
+                    missing = [k for k in want if got[k] != want[k]]
+                    rep.fail('R-UNITFLOW', fn.module.rel, fn.qual, slot, '`%s` is built from the bounds of `%s` but %s: a unit written on one bound only is lost and the bound is '
+                             're-read in the default unit' % (ast.unparse(c)[:70], src, ', '.join('%s is %s instead of %s' % (k, got[k], want[k]) for k in missing)), c.lineno)
     # timed node constructors copy the four fields
     nsite = 0
     for nc in D.node_classes(ix):
